@@ -137,7 +137,11 @@ def run(ctx):
 
     # ---- 0. schema of the running code (reflective), generated constant module
     out, p = _worker("schema", {}, ctx.scratch, "schema")
-    schema = _collect([(out, p)], "schema export")[0]
+    exported = _collect([(out, p)], "schema export")[0]
+    schema = exported["classes"]
+    if sorted(exported["markers"]) != sorted(KEYSEQ[:3]):
+        raise MachineryError(f"the serialiser's marker keys are {exported['markers']}, Serial!Markers / KeySeq say "
+                             f"{KEYSEQ[:3]}: update the specification's marker vocabulary")
     if len(schema) < 10:
         raise MachineryError(f"registry has only {len(schema)} dataclasses: binding broken")
     bad_hints = {c: s["error"] for c, s in schema.items() if "error" in s}
@@ -315,6 +319,13 @@ def run(ctx):
     if n_path < 16 or n_dmg < 5 or not n_iso:
         raise MachineryError(f"CLI runs on symlink path forms ({n_path}) / results with image error records ({n_dmg}) / "
                              f"ISO date cells ({n_iso}) missing: binding broken ({[n for n in notes if 'symlink' in n][:2]})")
+    n_xls = sum(1 for e in fx_events if e["a"] == "RoundTrip" and "generated xls, marker keys" in e.get("src", "")
+                and e["cls"] == "XlsContent" and e["_suspect"])
+    n_txt = sum(1 for e in fx_events if e["a"] == "RoundTrip" and "line ends / white space" in e.get("src", ""))
+    n_pi = sum(1 for e in events if "constructor normalises" in e.get("src", ""))
+    if n_xls < 4 or n_txt < 20 or n_pi < 20:
+        raise MachineryError(f"XLS results with marker header cells ({n_xls}) / plain-text normalisation inputs ({n_txt}) / "
+                             f"post-init instances ({n_pi}) missing: binding broken")
     if n_host < 9 or n_mail < 8:
         raise MachineryError(f"generated hostile PDFs ({n_host}) / mails ({n_mail}) missing: binding broken "
                              f"({[n for n in notes if 'generated' in n][:4]})")
@@ -424,6 +435,9 @@ def run(ctx):
                 "method, missing) so that every extractor's image.error record is produced; an XLSX stored with ISO "
                 "8601 dates (openpyxl delivers datetime.date); besides results and units also images, their "
                 "ImageMetadata, tables and get_metadata() of every extraction are round-tripped; "
+                "generated .xls with the serialiser's marker keys as header cells / cell strings; plain-text and mail "
+                "inputs and instances of every class with a __post_init__ whose strings are not fixed points of "
+                "sloppy normalisers (CR CR LF, outer white space kinds, NUL, BOM); "
                 "non-trivial = distinct abstract value with more than 8 nodes",
            exhaustive=not ctx.thorough,
            constants={"classes": len(schema), "instantiated": len(inst), "protocol_classes_skipped": skipped,
@@ -443,8 +457,8 @@ def run(ctx):
 
 # --------------------------------------------------------------------------- workers (library process)
 def _w_schema(job):
-    from ..c05_lib import export_schema
-    return export_schema()
+    from ..c05_lib import discover_markers, export_schema
+    return {"classes": export_schema(), "markers": discover_markers()}
 
 
 def _w_instances(job):
@@ -462,6 +476,17 @@ def _w_instances(job):
             e = execute(x)
             e["_suspect"] = has_marker_dict(e["v"])
             events.append(e)
+        if part == 0:
+            try:
+                extra = list(b.post_init_instances(cname))
+            except Exception:
+                extra = []
+                failed += 1
+            for spelling, x in extra:
+                e = execute(x)
+                e["src"] = f"type-directed instance, str fields = {spelling!r} (constructor normalises)"
+                e["_suspect"] = has_marker_dict(e["v"])
+                events.append(e)
     return {"events": events, "build_failed": failed}
 
 
@@ -652,6 +677,42 @@ def _w_fixtures(job):
                 p = wd / f"hostile-{name}-{key[1:].decode()}.pdf"
                 p.write_bytes(hostile_pdf(raw, raw, key))
                 files.append((str(p), f"generated PDF, image {key.decode()} and Info strings = {name}"))
+        # a legacy .xls whose header cells / cells are the serialiser's own marker keys (user DATA that looks
+        # like a marker), written with the shared BIFF8 writer (mbv/writers/xls.py, read-only use)
+        try:
+            from ..writers.xls import write_xls
+        except Exception as ex:                       # the writer belongs to another property
+            raise SystemExit(f"mbv.writers.xls not importable: {ex!r}")
+        some_class = "DocxNote" if "DocxNote" in registry else sorted(registry)[0]
+        books = {
+            "marker-headers": [[["str", "_bytes"], ["str", "_bytesio"], ["str", "_type"], ["str", "plain"]],
+                               [["str", "AAAA"], ["str", "AAAA"], ["str", some_class], ["str", "_type"]],
+                               [["n", 7], ["str", "w"], ["str", "no class"], ["str", "_bytes"]],
+                               [["str", "_type"], ["b", 1], ["str", "PdfContent"], None]],
+            "type-first": [[["str", "_type"], ["str", "text"], ["str", "id"]],
+                           [["str", some_class], ["str", "t"], ["str", "1"]],
+                           [["str", "TableDim"], ["n", 2], ["n", 3]]],
+            "bytes-only": [[["str", "_bytes"]], [["str", "AAAA"]], [["n", 1.5]], [["str", "not base64 !"]]],
+            "bytesio-only": [[["str", "_bytesio"], ["str", "z"]], [["str", "AAAA"], ["n", 1]]],
+        }
+        for name, rows in books.items():
+            p = wd / f"markers-{name}.xls"
+            p.write_bytes(write_xls({"sheets": [{"name": "_type", "rows": rows}, {"name": "second", "rows": rows[:2]}]}))
+            files.append((str(p), f"generated xls, marker keys as header cells ({name})"))
+        # plain-text inputs that are not fixed points of a sloppy constructor normalisation
+        texts = {"crcrlf": b"line one\r\r\nline two\r\r\nend\r\r\n", "crlf-lf": b"\r\n\na\r\n\nb\r\n\n",
+                 "cr-only": b"a\rb\r", "outer-ws": b" \t\x0b\x0c a b \x1c\x1d \t ", "nbsp": "\u00a0a\u2028b\u3000".encode("utf-8"),
+                 "nul": b"\x00a\x00b\x00", "bom": b"\xef\xbb\xbfa\r\nb\xef\xbb\xbf", "mixed": b"  \r\r\n  a  \n\r  b \r\n \r\n"}
+        for name, raw in texts.items():
+            for ext in (".txt", ".csv", ".md"):
+                p = wd / f"text-{name}{ext}"
+                p.write_bytes(raw if ext != ".csv" else raw.replace(b"a", b"a,b;c"))
+                files.append((str(p), f"generated {ext} with {name} line ends / white space"))
+        p = wd / "ws-subject.eml"
+        p.write_bytes(b"From: a@example.org\r\nTo: b@example.org\r\nSubject:  \t spaced \t subject \t \r\n"
+                      b"Message-ID: <ws@example.org>\r\nDate: Mon, 01 Jan 2024 10:00:00 +0000\r\n"
+                      b"Content-Type: text/plain; charset=utf-8\r\n\r\n\r\r\n  body line\r\r\nsecond \r\n\r\n \t \r\n")
+        files.append((str(p), "generated eml, white space around subject and body"))
         variants = ["ascii", "raw-utf8", "raw-latin1", "rfc2047"]
         for var in variants:
             p = wd / f"hostile-{var}.eml"
